@@ -351,12 +351,10 @@ class Eval:
                 v = self.expr(e.args[2])
                 self.emit("setattr", o, a, v)
                 return ("none",)
-            if name in ("tuple", "list", "slice", "hasattr", "globals", "locals", "iter", "next", "type", "classmethod",
-                        "__import__"):
+            if name in ("tuple", "list", "slice", "hasattr", "globals", "locals", "iter", "next", "classmethod",
+                        "__import__") and not e.keywords:
                 self.refs.append((name, name))
                 args = self.seq(e.args)
-                if e.keywords:
-                    raise NotInFragment("keywords on builtin idiom")
                 if name in ("tuple", "list") and len(args) == 1:
                     # tuple(x) / list(x): iterates x once, left to right   [builtins]
                     if not (isinstance(args[0], tuple) and args[0][0] in ("idx", "tuple", "list") and _pure_snapshot(args[0])):
